@@ -33,3 +33,10 @@ func (t *Miner) VerifBatchConfirmBlock(ctx xctx.XContext, blkIds [][]byte) error
 func (t *Miner) VerifTruncateForMiner(ctx xctx.XContext, target []byte) error {
 	return t.truncateForMiner(ctx, target)
 }
+
+// VerifMining calls mining: one whole round of block production (state walk if needed, the
+// consensus' pre-mining step incl. a truncation it orders, packBlock, confirmBlockForMiner, the
+// asynchronous broadcast).
+func (t *Miner) VerifMining(ctx xctx.XContext) error {
+	return t.mining(ctx)
+}
